@@ -132,6 +132,62 @@ theorem verify_no_underflow (code : List Node) (endOk : Bool) (hv : verify code 
   simp only [Bool.and_eq_true, decide_eq_true_eq] at hs
   exact hs.1
 
+/-- Frame slots: where the verifier accepts a unit whose nodes carry the slot requirement (`withSlotNeed`, as the
+driver builds them), every reachable execution of `loadStack(l)` / `storeStack(l)` / `initStack(l)` &c. with `l > 0`
+addresses a slot that exists below the operands: its position `l - 1 + base` in the normalised frame is smaller than
+the height (loads), resp. smaller than the height minus the value being stored (stores) — so `stack[sb + args + l]`
+is never beyond `sp`.  And the store variants that `panic("Illegal stack var index")` for `l ≤ 0` could only be reached with
+such an operand at an abstract height of at least 2^30 (the verifier explores no such state: its per-pc cap is far
+smaller, and the Go operand stack cannot get there). -/
+theorem verify_slot_in_frame (code : List Node) (endOk : Bool) (hv : verify code endOk = true)
+    (s : St) (hr : Reach code s) (base : Nat) (name : String) (ops : List (String × Int)) (n : Node)
+    (hn : code[s.pc]? = some (withSlotNeed base name ops n)) :
+    slotNeed base name ops ≤ s.h ∧
+    (∀ l : Int, lookupOp ops "n" = l → 0 < l →
+      (name ∈ ["loadStack", "loadStack1", "loadStackLex", "loadStack1Lex"] → l.toNat - 1 + base < s.h) ∧
+      (name ∈ slotStores → l.toNat - 1 + base + 1 < s.h)) ∧
+    (name ∈ slotPanicsNonPos → lookupOp ops "n" ≤ 0 → 1073741824 ≤ s.h) := by
+  have h := verify_no_underflow code endOk hv s hr _ hn
+  have hneed : slotNeed base name ops ≤ s.h := by
+    simp only [withSlotNeed] at h
+    omega
+  refine ⟨hneed, ?_, ?_⟩
+  · intro l hl hpos
+    constructor
+    · intro hm
+      have hm' : slotLoads.contains name = true := by
+        simp only [List.mem_cons, List.not_mem_nil, or_false] at hm
+        rcases hm with rfl | rfl | rfl | rfl <;> decide
+      have hnm : slotInIdx.contains name = false := by
+        simp only [List.mem_cons, List.not_mem_nil, or_false] at hm
+        rcases hm with rfl | rfl | rfl | rfl <;> decide
+      simp only [slotNeed, hnm, hm', hl, hpos, if_true, Bool.false_eq_true, if_false] at hneed
+      omega
+    · intro hm
+      have hm' : slotStores.contains name = true := List.contains_iff_mem.mpr hm
+      have hnl : slotLoads.contains name = false := by
+        simp only [slotStores, List.mem_cons, List.not_mem_nil, or_false] at hm
+        rcases hm with rfl | rfl | rfl | rfl | rfl | rfl | rfl | rfl | rfl | rfl | rfl | rfl <;> decide
+      have hnm : slotInIdx.contains name = false := by
+        simp only [slotStores, List.mem_cons, List.not_mem_nil, or_false] at hm
+        rcases hm with rfl | rfl | rfl | rfl | rfl | rfl | rfl | rfl | rfl | rfl | rfl | rfl <;> decide
+      simp only [slotNeed, hnm, hm', hnl, hl, hpos, if_true, Bool.false_eq_true, if_false] at hneed
+      omega
+  · intro hm hle
+    have hp : slotPanicsNonPos.contains name = true := List.contains_iff_mem.mpr hm
+    have hst : slotStores.contains name = true := by
+      simp only [slotPanicsNonPos, List.mem_cons, List.not_mem_nil, or_false] at hm
+      rcases hm with rfl | rfl | rfl | rfl | rfl | rfl | rfl | rfl <;> decide
+    have hnl : slotLoads.contains name = false := by
+      simp only [slotPanicsNonPos, List.mem_cons, List.not_mem_nil, or_false] at hm
+      rcases hm with rfl | rfl | rfl | rfl | rfl | rfl | rfl | rfl <;> decide
+    have hnm : slotInIdx.contains name = false := by
+      simp only [slotPanicsNonPos, List.mem_cons, List.not_mem_nil, or_false] at hm
+      rcases hm with rfl | rfl | rfl | rfl | rfl | rfl | rfl | rfl <;> decide
+    have hnp : ¬ (0 < lookupOp ops "n") := by omega
+    simp only [slotNeed, hnm, hst, hnl, hp, hnp, if_true, if_false, Bool.false_eq_true] at hneed
+    exact hneed
+
 /-- Halting: a run that leaves the code does so exactly at its end, at the entry height, with no open try frame and
 no pending variadic marker. -/
 theorem verify_halt_height (code : List Node) (endOk : Bool) (hv : verify code endOk = true)
